@@ -4,7 +4,8 @@
    compiled code on every run.  `dist adj i j o` : o = Some d, d the minimum walk length, or o = None, unreachable. *)
 From Coq Require Import Permutation.
 From Adapt Require Import Num.Qaux Graph.Paths Graph.FloydWarshallModel Graph.FloydWarshall
-  Graph.FloydWarshallLit Graph.DijkstraModel Graph.Dijkstra Graph.BellmanFord Graph.PairingHeapModel Graph.PairingHeap.
+  Graph.FloydWarshallLit Graph.DijkstraModel Graph.Dijkstra Graph.BellmanFord Graph.PairingHeapModel Graph.PairingHeap
+  Graph.ApspAgree.
 Local Open Scope Q_scope.
 
 (* Floyd-Warshall with the repaired initialisation (minimum of parallel edges, self-loops skipped): every
@@ -130,6 +131,36 @@ Theorem C17_johnsons_eq_fw n es :
   forall i j, (i < n)%nat -> (j < n)%nat -> oeq (mget J i j) (mget (fw_current n es) i j).
 Proof. exact (johnsons_eq_fw n es). Qed.
 Print Assumptions C17_johnsons_eq_fw.
+
+(* the remaining clauses of the property for the matrix johnsons returns (Graph/ApspAgree.v): zero diagonal,
+   symmetric, the 'unreachable' sentinel exactly for pairs without any walk, and entry-wise agreement of
+   floyd_warshall (repaired initialisation), johnsons and the Bellman-Ford oracle *)
+Theorem C17_johnsons_diag_zero n es : wf_graph n es -> forall J, johnsons n es = Some J ->
+  forall i, (i < n)%nat -> oeq (mget J i i) (Some 0).
+Proof. exact (johnsons_diag_zero n es). Qed.
+Print Assumptions C17_johnsons_diag_zero.
+
+Theorem C17_johnsons_symmetric n es : wf_graph n es -> forall J, johnsons n es = Some J ->
+  forall i j, (i < n)%nat -> (j < n)%nat -> oeq (mget J i j) (mget J j i).
+Proof. exact (johnsons_symmetric n es). Qed.
+Print Assumptions C17_johnsons_symmetric.
+
+Theorem C17_johnsons_sentinel_iff n es : wf_graph n es -> forall J, johnsons n es = Some J ->
+  forall i j, (i < n)%nat -> (j < n)%nat -> (mget J i j = None <-> forall l, ~ walk (adj_of es) i j l).
+Proof. exact (johnsons_sentinel_iff n es). Qed.
+Print Assumptions C17_johnsons_sentinel_iff.
+
+Theorem C17_fw_fixed_sentinel_iff n es : wf_graph n es ->
+  forall i j, (i < n)%nat -> (j < n)%nat -> (mget (fw_fixed n es) i j = None <-> forall l, ~ walk (adj_of es) i j l).
+Proof. exact (fw_fixed_sentinel_iff n es). Qed.
+Print Assumptions C17_fw_fixed_sentinel_iff.
+
+Theorem C17_apsp_all_agree n es : wf_graph n es -> forall J, johnsons n es = Some J ->
+  forall s d, (s < n)%nat -> bf n es s = Some d -> forall t, (t < n)%nat ->
+    oeq (mget J s t) (mget (fw_fixed n es) s t) /\ oeq (mget J s t) (dget d t) /\
+    oeq (mget (fw_fixed n es) s t) (dget d t).
+Proof. exact (apsp_all_agree n es). Qed.
+Print Assumptions C17_apsp_all_agree.
 
 (* the layout matrices: D = idealLength * dist over the corrected lengths, G = 0 / 1 / 2 *)
 Theorem C17_path_lengths_scaled n es ideal D G :
